@@ -547,6 +547,8 @@ def check_case(ctx, case, tags=(), record=True):
         before = cur
         f2, after, exc = run_impl_step(fields, step)
         one = {"lm": before, "steps": [list(step)]}
+        if lm0.get("conn_dtype") and si == 0:
+            one = {"lm": dict(before, conn_dtype=lm0["conn_dtype"]), "steps": [list(step)]}   # replayable as stored
         if exc is not None:
             cls = expected_raise(before, step)
             tags.append(f"raise-{cls or 'UNEXPECTED'}")
@@ -962,7 +964,10 @@ def run(ctx):
         span = max([abs(x) for q in lm["points"] for x in q] + [1.0])
         extra = (cap + 20 - len(lm["points"])) if cap is not None else rng.randint(3, 30)
         for j in range(extra):
-            lm["points"].append([span * (2.0 + 0.37 * j + 0.011 * d) for d in range(lm["dim"])])
+            # most of the surplus points lie BELOW the mesh in every coordinate: a point sort moves them to the front, and
+            # the connected points get indices beyond the range of the narrow type
+            sgn = 1.0 if j % 50 == 49 else -1.0
+            lm["points"].append([sgn * span * (2.0 + 0.37 * j + 0.011 * d) for d in range(lm["dim"])])
         for f in lm["pf"]:
             rs = _rowsize(f["tail"])
             f["v"] = f["v"] + [(1000 + j if f["dt"][0] in "iu" else 1000.5 + j) for j in range(extra * rs)]
